@@ -159,6 +159,14 @@ def stepWith (fix fixP fix3 fixM : Bool) (s : St) (ts : List String) : St × Str
       let r := submit s.pool tx st t
       ({ s with pool := r.1 }, showSubmit r.2)
     | _, _, _ => (s, "bad-op")
+  | ["minfees"] =>
+    if enableRbf s.pool.cfg then
+      let es := (sortBy (fun (e : Entry) => e.tx.id) s.pool.entries).map fun e =>
+        match minReplaceFeeOf s.pool e.tx.id with
+        | some f => s!"{e.tx.id}={f}"
+        | none => s!"{e.tx.id}=none"
+      (s, s!"ok {joinOr es}")
+    else (s, "rbf-disabled")
   | ["dump"] => (s, dumpLine s.pool)
   | _ => (s, "bad-op")
 
